@@ -83,7 +83,26 @@ def m_naive_aware(case: dict, xd: dict, what: str) -> bool:
     return any(b != v for b in bounds for v in vals)
 
 
+def m_container_pred_on_payload(case: dict, xd: dict, what: str) -> bool:
+    """D22: a container-level predicate that counts or compares elements (UniqueItems; size predicates
+    of sets and maps, whose members/keys merge) holds on the coerced input but not on the payload the
+    children produce"""
+    import re
+    mm = re.search(r"container predicate (\w+):([\w,]*) fails on the payload", what)
+    if not mm:
+        return False
+    kind, preds = mm.group(1), mm.group(2).split(",")
+    for p in preds:
+        if p == "UniqueItems":
+            continue
+        if kind in ("set", "map") and p in ("MinItems", "ExactItemCount", "MinKeys", "user"):
+            continue
+        return False
+    return True
+
+
 MATCHERS: Dict[str, Callable[[dict, dict, str], bool]] = {
+    "container_pred_on_payload": m_container_pred_on_payload,
     "special_decimal": m_special_decimal,
     "naive_aware": m_naive_aware,
 }
